@@ -121,14 +121,15 @@ func H_C13_sequential() {
 
 //verif:witness H_C13_concurrent end
 //verif:bound C13 quick 2 concurrent writers x 1 write each, every clock reading arbitrary non-decreasing, interval 1 s, pre-emption at every visible operation (atomics, file write/close, channel, thread start/exit) with at most 2 pre-emptive switches, under the stall rule
-//verif:bound C13 thorough 2 writers x 1..2 writes, 3 pre-emptive switches, under the stall rule; the same exploration without the stall rule is reported as 'unconfirmed_outside_claim'
+//verif:bound C13 thorough 2 writers (2 writes and 1 write), 2 pre-emptive switches at any visible operation, under the stall rule; the same exploration without the stall rule is reported as 'unconfirmed_outside_claim'
 //verif:assume C13 in the concurrent harness all clock readings lie within 1000 s (retention, C14, is not the subject and must not expire the files under test)
 //verif:assume C13 stall rule: the clock does not move into a later interval while another writer is suspended inside RollingFileAppender.Write (a writer stalled across a whole interval between two adjacent statements can lose its write to an already closed file; that schedule cannot be enforced natively and is outside the claim)
 //verif:engine-only H_C13_concurrent
 //verif:engine-only H_C13_concurrent_nostall
 //verif:unconfirmed H_C13_concurrent_nostall
 
-func vRollConcurrent(stall bool, perWriter, preempt int) {
+// asym = 1: the second writer issues one write fewer than the first.
+func vRollConcurrent(stall bool, perWriter, preempt, asym int) {
 	vOpt("loop", 400)
 	vOpt("schedall", 1)
 	vOpt("preempt", preempt)
@@ -149,7 +150,7 @@ func vRollConcurrent(stall bool, perWriter, preempt int) {
 	payloads := [][]byte{{'A', '\n'}, {'B', '\n'}, {'C', '\n'}, {'D', '\n'}}
 	for w := 0; w < 2; w++ {
 		go func(w int) {
-			for i := 0; i < perWriter; i++ {
+			for i := 0; i < perWriter-w*asym; i++ {
 				app.Write(payloads[w*2+i])
 			}
 			done <- 1
@@ -167,7 +168,7 @@ func vRollConcurrent(stall bool, perWriter, preempt int) {
 		all = append(all, c...)
 	}
 	for w := 0; w < 2; w++ {
-		for i := 0; i < perWriter; i++ {
+		for i := 0; i < perWriter-w*asym; i++ {
 			p := payloads[w*2+i]
 			count := 0
 			for k := 0; k+1 < len(all); k += 2 {
@@ -184,9 +185,9 @@ func vRollConcurrent(stall bool, perWriter, preempt int) {
 
 func H_C13_concurrent() {
 	if vTier() > 0 {
-		vRollConcurrent(true, 1+vChoose("perWriter", 2), 3)
+		vRollConcurrent(true, 2, 2, 1)
 	} else {
-		vRollConcurrent(true, 1, 2)
+		vRollConcurrent(true, 1, 2, 0)
 	}
 }
 
@@ -197,5 +198,5 @@ func H_C13_concurrent_nostall() {
 		vReach("end")
 		return
 	}
-	vRollConcurrent(false, 2, 3)
+	vRollConcurrent(false, 2, 2, 1)
 }
